@@ -5,9 +5,10 @@ import (
 	"fmt"
 	"log/slog"
 	"strings"
+	"unicode"
+	"unicode/utf8"
 
 	"github.com/AdguardTeam/AdGuardHome/internal/filtering"
-	"github.com/AdguardTeam/golibs/stringutil"
 )
 
 type criterionType int
@@ -79,11 +80,64 @@ func ctDomainOrClientCaseNonStrict(
 	host string,
 	ip string,
 ) (ok bool) {
-	return stringutil.ContainsFold(clientID, term) ||
-		stringutil.ContainsFold(host, term) ||
-		(asciiTerm != "" && stringutil.ContainsFold(host, asciiTerm)) ||
-		stringutil.ContainsFold(ip, term) ||
-		stringutil.ContainsFold(name, term)
+	return containsFold(clientID, term) ||
+		containsFold(host, term) ||
+		(asciiTerm != "" && containsFold(host, asciiTerm)) ||
+		containsFold(ip, term) ||
+		containsFold(name, term)
+}
+
+// containsFold reports whether s contains substr under Unicode simple case
+// folding, the same way [strings.EqualFold] compares strings.
+//
+// NOTE:  Do not use stringutil.ContainsFold here.  It only looks for the first
+// rune of substr itself and for its next simple fold, which isn't the other
+// case of the letter for "k" and "s" (those are the Kelvin sign and the long
+// s), so it doesn't find "speaker" in "My Speaker".
+func containsFold(s, substr string) (ok bool) {
+	for {
+		if hasPrefixFold(s, substr) {
+			return true
+		}
+
+		_, size := utf8.DecodeRuneInString(s)
+		if size == 0 {
+			return false
+		}
+
+		s = s[size:]
+	}
+}
+
+// hasPrefixFold reports whether s begins with prefix under Unicode simple case
+// folding.
+func hasPrefixFold(s, prefix string) (ok bool) {
+	for _, pr := range prefix {
+		sr, size := utf8.DecodeRuneInString(s)
+		if size == 0 || !equalFoldRune(sr, pr) {
+			return false
+		}
+
+		s = s[size:]
+	}
+
+	return true
+}
+
+// equalFoldRune reports whether a and b are the same rune under Unicode simple
+// case folding.
+func equalFoldRune(a, b rune) (ok bool) {
+	if a == b {
+		return true
+	}
+
+	for r := unicode.SimpleFold(a); r != a; r = unicode.SimpleFold(r) {
+		if r == b {
+			return true
+		}
+	}
+
+	return false
 }
 
 // quickMatch quickly checks if the line matches the given search criterion.
